@@ -11,10 +11,13 @@ from .. import common, refcodec, reflayout, shapes, cbuild, cppbuild, dbcread
 from ..schema import U, I, F32, F64, STR, Arr, Dyn, Opt, St, enum_with_max, Hoister, print_schema, struct_decl, type_str
 from ..common import Stats, Run, pmap, chunks
 from .codec import class_skeleton
-from .cpp import to_json_value
+from .cpp import to_json_value, from_json_value
 
-KINDS12 = [U(1), U(3), U(8), U(13), I(5), I(16), F32, STR, enum_with_max(5), St(U(3), I(6)), Arr(U(4), 2), Opt(U(8))]
-KINDS6 = [U(3), I(5), F32, STR, enum_with_max(2), St(U(3), I(6))]
+# nested structs whose own fields are declared out of id order: a permutation hidden one level down
+OOO = ("st", (("a", 1, U(3)), ("b", 0, I(6))))
+OOO3 = ("st", (("a", 2, U(8)), ("b", 0, U(8)), ("c", 1, U(8))))
+KINDS12 = [U(1), U(3), U(8), U(13), I(5), I(16), F32, STR, enum_with_max(5), St(U(3), I(6)), Arr(U(4), 2), Opt(U(8)), OOO, Arr(OOO3, 2)]
+KINDS6 = [U(3), U(8), I(5), F32, STR, enum_with_max(2), OOO]
 KINDS5 = [U(3), I(13), enum_with_max(5), Dyn(U(8)), F64]
 IDS = (2, 5, 9, 14)  # a fixed injection, not 0..n-1
 
@@ -192,12 +195,29 @@ def make_worker(tier):
                     index.append((idx, combo, name, perm, k, v, "static"))
                     reqs.append({"op": "dyn_enc", "name": name, "value": to_json_value(st, v, True)})
                     index.append((idx, combo, name, perm, k, v, "dynamic"))
+                    canon = list(refcodec.encode(env, name, v))
+                    reqs.append({"op": "dec", "name": name, "bytes": canon})
+                    index.append((idx, combo, name, perm, k, v, "static-dec"))
+                    reqs.append({"op": "dyn_dec", "name": name, "bytes": canon})
+                    index.append((idx, combo, name, perm, k, v, "dynamic-dec"))
         answers = cppbuild.run_requests(exe, reqs, refl)
         ref = {}
         flagged = set()
         for (idx, combo, name, perm, k, v, which), a in zip(index, answers):
             S.count("executions")
             cc = ",".join(class_skeleton(t) for t in combo)
+            if which.endswith("-dec"):
+                st_tw = [t for t in [g for g in groups if g[0] == idx][0][2] if t[0] == name][0][2]
+                try:
+                    got = from_json_value(st_tw, a["value"], which.startswith("dynamic")) if "value" in a else None
+                    ok = got is not None and refcodec.same(got, v)
+                except ValueError:
+                    got, ok = a, False
+                if not ok and (idx, which) not in flagged:
+                    flagged.add((idx, which))
+                    S.add("outcomes", "cpp-%s-differs" % which)
+                    S.violation("C15.cpp", "C15.cpp/%s-value-depends-on-declaration-order/%s" % (which, cc), dict(inp0, text=snippet(idx), struct=name, permutation=list(perm), value=v), expected=v, actual=got if got is not None else a)
+                continue
             if perm == tuple(range(len(combo))):
                 ref[(idx, k, which)] = a.get("bytes")
                 if a.get("bytes") is None and (idx, which, "base") not in flagged:
@@ -255,7 +275,7 @@ def run(tier):
     common.bind_repo()
     r = Run("C15", tier)
     bs = bases(tier)
-    r.bounds = {"base_structs": len(bs), "pairs": 144, "triples": 216, "quads": 0 if tier == "quick" else 625, "ids": list(IDS)}
+    r.bounds = {"base_structs": len(bs), "pairs": len(KINDS12) ** 2, "triples": len(KINDS6) ** 3, "quads": 0 if tier == "quick" else 625, "ids": list(IDS)}
     for s in pmap(make_worker(tier), chunks(list(enumerate(bs)), 12)):
         r.stats.merge(s)
     cppbuild.trim_cache()
